@@ -10,7 +10,82 @@ COMMON_TRUST = [
 
 KERNEL_TIMEOUT = 1800
 
+E2E_TRUST = COMMON_TRUST + [
+    "the in-order oracle: stock revm (revm_database::State + mainnet EVM via alloy EthEvm) run one transaction at a time on the same pre-state, skipping invalid transactions, in harness/src/world.rs",
+    "revm/alloy-evm as a deterministic black box: a transaction is modelled as a deterministic program over database reads (Model/Block.lean); revm's interpreter, journal and handler are not modelled",
+]
+
+def e2e(families, quick_cases, thorough_cases, configs="w2,w3", schedules=2, label=None, extra=None):
+    q = {"families": families, "cases": quick_cases, "configs": configs, "schedules": schedules}
+    t = {"families": families, "cases": thorough_cases, "configs": configs, "schedules": schedules + 2, "max-txs": 14}
+    if label:
+        q["label"] = label
+        t["label"] = label
+    if extra:
+        q.update(extra)
+        t.update(extra)
+    return {"sub": "e2e", "quick": q, "thorough": t, "timeout": 7000}
+
+E2E_RULE = ("blocks are generated from a typed mini-language (families: mixed transfers/data-dependent storage/beneficiary roles; lifecycle selfdestruct/EIP-161/recreate; code deploy + EIP-7702 set/re-point/clear; invalid transactions of every kind with in-block-dependent validity; custom precompiles), 2-10 txs on few accounts so that conflicts are forced, specs Frontier..Osaka; "
+            "each block runs free (OS scheduling) and under seeded controller schedules (random / PCT / sticky) per configuration; oracle = in-order stock revm; compared: every outcome, status, full bundle (state, original values, statuses, contracts, reverts, size accounting) and every applied commit (result + state changes) against the in-order transaction; distinct = distinct (spec, tx list); non-trivial = all (>= 2 txs touching shared accounts)")
+
+WITNESS = {"sub": "witness", "quick": {}, "thorough": {}, "timeout": 600}
+
 PROPS = {
+    "C01": {
+        "lean_modules": ["Props.C01"],
+        "harness": [e2e("mixed,lifecycle,code,invalid,precompile", 100, 3000), WITNESS],
+        "rule": E2E_RULE,
+        "trusted_base": E2E_TRUST,
+        "modelled": ["a transaction as a deterministic interaction tree over reads (Model/Block.lean); in-order semantics `ideal`; multi-version read resolution `view`"],
+        "assumptions": ["monitored: an incarnation's result is a function of the values returned to it (determinism of revm)"],
+        "partial": ["the theorem here is the static core (validated reads => in-order result); that every finalized result has validated reads is the pipeline theorem of C02"],
+        "explanation": "Theorem validated_reads_imply_in_order / outcomes_in_order: any recorded runs whose reads equal the final writes of their predecessors are exactly the in-order runs, for every block and base state; tied to the code by end-to-end comparison with stock revm under controller schedules.",
+    },
+    "C03": {
+        "lean_modules": ["Props.C03"],
+        "harness": [e2e("invalid,code,mixed", 90, 3000, label="invalid-heavy")],
+        "rule": E2E_RULE,
+        "trusted_base": E2E_TRUST,
+        "modelled": ["OrderedCommitter::commit nonce gate", "execute_sequential_suffix classification", "error branch of execute_task for invalid transactions"],
+        "assumptions": ["revm's transaction validation = nonce check AND nonce-independent rest (hypothesis hdecomp of gate_equiv; exercised by the differential runs)"],
+        "explanation": "Theorems nonce_gate, gate_iff_valid, gate_equiv, replay_no_error, replay_pointwise, invalid_never_fatal on the decision logic; blocks with every invalid kind at random positions against the in-order oracle (reason values compared structurally).",
+    },
+    "C04": {
+        "lean_modules": ["Props.C04"],
+        "harness": [
+            {"sub": "faults", "quick": {"cases": 16}, "thorough": {"cases": 300, "max-txs": 9}, "timeout": 7000},
+            WITNESS,
+        ],
+        "rule": "for each generated block: every database key touched by the in-order run or by a speculative grevm run x {persistent, fail-once} is injected into the pre-state database; oracle = in-order revm on the same faulty database; persistent: equal status/outcomes/bundle (or the fault is avoided and the fault-free result is produced); fail-once: absorbed (fault-free result) or reported as that fault with the exact in-order prefix of outcomes and state; plus the deterministic witnesses F2/F5 under directed schedules",
+        "trusted_base": E2E_TRUST,
+        "modelled": ["post_execute abort-reason mapping", "execute_sequential_suffix prefix preservation", "error branch of execute_task"],
+        "assumptions": ["fault injection wraps DatabaseRef of the pre-state only"],
+        "partial": ["error_branch_start_partial: the decision logic; that an attempt started at the commit head reads only final state is the pipeline theorem (C02)"],
+        "explanation": "Theorems replay_error_prefix, post_execute_returns, error_branch_start_partial; fault enumeration against the oracle; findings F2, F5 repaired (witnesses run every time), F4 open.",
+    },
+    "C06": {
+        "lean_modules": ["Props.C06"],
+        "harness": [e2e("mixed,lifecycle,code,invalid,precompile", 40, 600, configs="w1,w2,w4,seq,fallback,minpar,mineq", schedules=1, label="config-matrix")],
+        "rule": E2E_RULE + "; configurations: workers 1,2,4; min_parallel_txs 0, n, n+1; force_sequential; fallback_sequential() entry point — all compared with the same in-order oracle result",
+        "trusted_base": E2E_TRUST,
+        "modelled": ["path selection in parallel_execute_inner"],
+        "assumptions": ["both paths compute the in-order result (C01-C04)"],
+        "explanation": "Theorems path_select, config_independent; every generated block is executed under 7 configurations and 2 entry points and all results are compared with one oracle result.",
+    },
+    "C07": {
+        "lean_modules": ["Props.C07"],
+        "harness": [
+            {"sub": "history", "quick": {"cases": 1500}, "thorough": {"cases": 60000}, "timeout": 3000},
+            {"sub": "reward", "quick": {"cases": 5000}, "thorough": {"cases": 200000}, "timeout": 3000},
+            e2e("mixed,precompile", 60, 1500, label="beneficiary-roles"),
+        ],
+        "rule": "history: random op sequences (record reward/unchanged/snapshot/estimate, invalidate, resolve, validate of remembered chains; incarnations 0..3 so stale ones occur) on the real BeneficiaryHistory vs Model/History.lean, result by result; reward: (spec, fees, gas, reservoir) tuples: grevm from_gas vs revm reward_beneficiary vs Lean rewardAmount; e2e: beneficiary absent / EOA / near-overflow / contract with storage / sender, zero and non-zero priority fees",
+        "trusted_base": E2E_TRUST,
+        "modelled": ["BeneficiaryHistory record/invalidate/scan_before/resolve/validate", "DeferredBeneficiaryReward::apply_to", "BeneficiaryReward::from_gas and the defer decision"],
+        "assumptions": ["fee-disabled mode (optional_fee_charge feature) is not generated"],
+        "explanation": "Theorems scan_fold, validate_sound (over all op histories), evolves_ops, record_guard, invalidate_guard, defer_iff, reward_formula, applyReward_spec, commit_fold.",
+    },
     "C14": {
         "lean_modules": ["Props.C14"],
         "harness": [],
